@@ -32,7 +32,11 @@ def alphabet(kind):
         for a, b in [((0, 0, 0), (1, 0, 0)), ((0, 0, 0), (0, 0, 2)), ((-1, -1, -1), (1, 1, 1)), ((1, 0, 0), (1, 1, 0)),
                      ((0.5, 0.5, 1), (0.5, 0.5, 3)), ((-2, 1, 0), (2, 1, 0)), ((0, 0, 0), (100, 0, 0)), ((0.3, -0.7, 1.9), (1.1, 0.4, -0.6)),
                      ((0, 0, 1), (0, 0.2, 1)), ((0, 0, 0.5), (1, 1, 0.5)), ((2, 0, 0), (3, 0, 0)), ((-0.5, 0, 0), (0.5, 0, 0)),
-                     ((0.25, 0.25, -1), (0.25, 0.25, 1)), ((0, 0, 1), (1, 0, 1))]:
+                     ((0.25, 0.25, -1), (0.25, 0.25, 1)), ((0, 0, 1), (1, 0, 1)),
+                     # reversed / negative directions (direction without a positive component, with exact zeros), appended so that
+                     # the indices of the segments above stay stable
+                     ((1, 0, 0), (0, 0, 0)), ((0, 0, 2), (0, 0, 0)), ((1, 1, 0), (1, 0, 0)), ((2, 1, 0), (-2, 1, 0)), ((0.5, 0.5, 3), (0.5, 0.5, 1)),
+                     ((1, 1, 1), (-1, -1, -1)), ((1, 0, 1), (0, -1, 1)), ((0, 0.2, 1), (0, 0, 1))]:
             A.append(rp.Segment(a, b))
     elif kind == "plane":
         for a in [(0, 0, 0), (0, 0, 1), (0.5, 0.5, 0.5)]:
@@ -121,8 +125,11 @@ def call(name, A, B):
 
 
 def scale_L(A, B):
-    return max(1.0, A.size(), B.size(), float(np.linalg.norm(A.centre())), float(np.linalg.norm(B.centre())),
-               float(np.linalg.norm(A.centre() - B.centre())))
+    """Size scale of the pair: feature sizes and mutual centre distance (VERIF_L_WORLD=1: also the distance from the origin)."""
+    L = max(1.0, A.size(), B.size(), float(np.linalg.norm(A.centre() - B.centre())))
+    if __import__("os").environ.get("VERIF_L_WORLD"):
+        L = max(L, float(np.linalg.norm(A.centre())), float(np.linalg.norm(B.centre())))
+    return L
 
 
 def all_names():
